@@ -165,6 +165,19 @@ func (X *Exec) oblige(st *State, kind, label, desc string, p token.Pos, goal *Te
 		st.assume(ts, goal)
 		return
 	}
+	if kind == "pre" && label != "" && X.E.Specs.Funcs != nil && X.libraryLabel(label) {
+		// a precondition of an assumed library contract that is checked only in functions that opt in
+		// (`opt library <label prefix>`): elsewhere it is assumed, like any unlabelled precondition under `safety off`
+		want := ""
+		if X.TopSpec != nil {
+			want = X.TopSpec.Opts["library"]
+		}
+		if want == "" || !strings.HasPrefix(label, want) {
+			X.SafetySkipped++
+			st.assume(ts, goal)
+			return
+		}
+	}
 	if X.SafetyBounds && label == "" {
 		switch kind {
 		case "nil", "typeassert", "pre":
@@ -193,6 +206,25 @@ func (X *Exec) oblige(st *State, kind, label, desc string, p token.Pos, goal *Te
 	}
 	// continue under the assumption that it holds
 	st.assume(ts, goal)
+}
+
+var libLabels map[string]bool
+
+// libraryLabel: the label belongs to a requires clause of a trusted (assumed) contract.
+func (X *Exec) libraryLabel(label string) bool {
+	if libLabels == nil {
+		libLabels = map[string]bool{}
+		for _, fs := range X.E.Specs.Funcs {
+			if fs.Trusted {
+				for _, c := range fs.Requires {
+					if c.Label != "" {
+						libLabels[c.Label] = true
+					}
+				}
+			}
+		}
+	}
+	return libLabels[label]
 }
 
 // ---------------------------------------------------------------------------
